@@ -29,6 +29,20 @@ func syncFloatPrec(v0, v1 *slip.LongFloat) (*slip.LongFloat, *slip.LongFloat) {
 	return v0, v1
 }
 
+// maxIntegerBits is the size of the largest integer a shift or a power is
+// allowed to make, 32 megabytes. A request for more, (ash 1 100000000000) or
+// (expt 2 10000000000), raises an arithmetic-error instead of taking all the
+// memory there is.
+const maxIntegerBits = 1 << 28
+
+// checkIntegerBits raises an arithmetic-error if an integer result of about
+// that many bits is larger than maxIntegerBits.
+func checkIntegerBits(s *slip.Scope, depth int, f slip.Object, args slip.List, bits float64) {
+	if maxIntegerBits < bits {
+		slip.ArithmeticPanic(s, depth, f, args, "the result is too large, about %g bits", bits)
+	}
+}
+
 // addFixnums adds two fixnums. A sum that does not fit in a fixnum is
 // returned as a bignum instead of wrapping around.
 func addFixnums(a, b slip.Fixnum) slip.Object {
